@@ -329,6 +329,13 @@ def candidates(c, pools, kind, old, detail, quick):
     out += [(x, "defined-other") for x in pool + extra]
     und = UNDEFINED[kind]
     out += [(x, "undefined") for x in (und[:1] if quick and kind not in ("regime", "category", "ext-key") else und)]
+    if old:
+        # written variants of the DEFINED value that are not themselves defined: other letter case, padding
+        # (a lookup that folds case or trims would let them through; judged on the accepted output's own references)
+        full, _ = pools.values(kind, detail)
+        vs = [old.lower(), old.upper(), old[:1].upper() + old[1:].lower(), old[:1].lower() + old[1:], old + " "]
+        vs = [v for i, v in enumerate(vs) if v != old and v not in full and v not in vs[:i]]
+        out += [(v, "undefined-variant") for v in (vs[:2] if quick else vs)]
     if kind == "rate" and old:
         out.append((old + "+zz-unknown", "undefined-part"))     # Key.Has: one defined part is enough
     if kind == "ext-key" and old:
